@@ -403,7 +403,9 @@ static void comp_case(vf::Draw& d, vf::Case& c, const CompTraits& t, RunFn fn, c
         CVecL u = RM.Minv * (in.C * in.x);
         if (mode == M_CAYLEY)
         {
-            CVecL want = RM.Minv * ((in.A + in.sigma * in.B) * in.x);
+            // reference through the identity (A - sB)^-1 (A + sB) x = x + 2 s (A - sB)^-1 B x: in exact arithmetic the same vector, but
+            // (unlike M^-1 applied to (A + sB) x) its own rounding error is covered by the terms of the bound also for small |s|
+            CVecL want = in.x + cld(2) * in.sigma * u;
             const ld unit = neps * (2 * std::abs(in.sigma) * (condM * u.norm() + normC * nx / RM.smin) + nx + want.norm());
             check_close(o.v[0], want, unit, "composite", name + " perform_op", "(A-sB)^-1 (A+sB) x: err/(n eps (2|s|(cond ||u|| + ||M^-1|| ||B|| ||x||) + ||x|| + ||y||))");
         }
